@@ -113,7 +113,13 @@ class HashFileDB(ObjectDB):
                 if verify:
                     self.check(o, check_hash=True)
                 self.protect(cache_path)
-            except (ObjectFormatError, FileNotFoundError):
+            except ObjectFormatError as exc:
+                # the object failed verification and has been removed by
+                # check(): report it instead of counting it as added
+                if on_error is not None:
+                    on_error(o, exc)
+                transferred = max(0, transferred - 1)
+            except FileNotFoundError:
                 pass
 
         self.state.save_many(
